@@ -139,14 +139,18 @@ def importsCover (m : PyModule) : Bool :=
     | some i => i.pkg == (importFor a).pkg && i.module == (importFor a).module
     | none => false)
 
-/-- every `from ..models import q` finds `models/q.py`; aliases are identifiers -/
-def importOk (ss : Schemas) (cur : String) : String × PyImport → Bool
-  | (a, i) => pyIdent a && (if i.pkg == "..models" then i.module == a && a != cur && (Schemas.locate ss a).isSome
+/-- every `from ..models import q` finds `models/q.py`; aliases are identifiers; the stock runtime has no
+    `cog/variants.py` -/
+def importOk (ss : Schemas) : String × PyImport → Bool
+  | (a, i) => pyIdent a && (if i.pkg == "..models" then i.module == a && (Schemas.locate ss a).isSome
                             else if i.pkg == "..cog" then false else i.module == "" && i.pkg == a)
+
+/-- the alias is bound as the printers mean it and the import statement succeeds -/
+def aliasOk (ss : Schemas) (a : String) : Bool := importOk ss (a, importFor a)
 
 /-- the fragment checker -/
 def pyDeclCheck (ss : Schemas) (m : PyModule) : Bool :=
-  m.imports.all (importOk ss m.pkg) && importsCover m && declsOk ss m.decls
+  m.imports.all (importOk ss) && importsCover m && declsOk ss m.decls
 
 def declName : PyDecl → String
   | .const _ n _ _ | .alias _ n _ _ | .enumCls n _ _ _ _ | .cls n _ _ _ _ => n
